@@ -445,6 +445,9 @@ func classify(c *dcase) string {
 	switch {
 	case errs == 3:
 		return "cls=lookupfail"
+	case routes == 0 && errs > 0:
+		// no lookup returned a route, but not all of them answered: the loader caches an EMPTY route list
+		return "cls=noroutes-partial"
 	case routes == 0:
 		return "cls=noroutes"
 	case ok:
@@ -511,7 +514,7 @@ func (w *world) runDial(r *hlib.Run, c *dcase) {
 	r.Emit(lhs, out+" "+tried+" "+closed+" "+got)
 	key := strings.Join(c.slots[:], " ") + c.envs[0].tok() + c.envs[1].tok() + c.envs[2].tok()
 	if cls == "cls=noroutes" || cls == "cls=lookupfail" {
-		key = "" // trivial: no route is ever dialled
+		key = "" // trivial: every lookup gave the same answer, no route is ever dialled
 	}
 	r.Case(key)
 	r.Count(cls)
@@ -745,7 +748,7 @@ func slotOptions() []slotOpt {
 
 func main() {
 	r := hlib.Start()
-	r.Rule = "dial: 3 lookup slots x per-route behaviour, ALL 16^3 combinations of {empty, lookup error, undecodable, local x {ok, link-send fails, no-direct, hard error}, remote x {dial error, dial no-direct, route-send fails, status unreadable, status OK, OK+link fails, UNKNOWN_ERROR, NO_DIRECT, unknown code}} with randomised client ids / error flavours / hostnames, plus cache-hit re-dials; proxy: every received-frame kind x client dial result x flavour; e2e: gateway -> real remote handleProxyConn. non-trivial = a case where at least one route is dialled"
+	r.Rule = "dial: 3 lookup slots x per-route behaviour, ALL 16^3 combinations of {empty, lookup error, undecodable, local x {ok, link-send fails, no-direct, hard error}, remote x {dial error, dial no-direct, route-send fails, status unreadable, status OK, OK+link fails, UNKNOWN_ERROR, NO_DIRECT, unknown code}} with randomised client ids / error flavours / hostnames, plus cache-hit re-dials; proxy: every received-frame kind x client dial result x flavour; e2e: gateway -> real remote handleProxyConn. non-trivial = a case where at least one route is dialled, or no lookup returned a route while the lookups disagree (absent / failed / undecodable mixed: the loader's empty route list)"
 	rng := hlib.NewRng(r.Seed)
 	w := newWorld()
 
